@@ -688,6 +688,122 @@ def handle(line: str) -> str:
             return "OK C[" + ",".join("%s:%s:%s" % (so(c.table_name), so(c.column_name), "-" if c.column_idx is None else str(c.column_idx)) for c in r) + "]"
         except Exception as e:  # noqa
             return "BAD-REQUEST " + repr(e)
+    if cmd == "LINEAGE":
+        try:
+            from metasequoia_sql import SQLParser, SQLType
+            from metasequoia_sql.analyzer import CreateTableStatementGetter
+            from metasequoia_sql.analyzer.data_linage.table_lineage_analyzer import TableLineageAnalyzer
+            from metasequoia_sql.core import node as cnode
+            import contextlib
+            import io
+            i = words.index("|")
+            cat = {}
+            for w in words[1:i]:
+                if w == "-":
+                    continue
+                for e in w.split(","):
+                    n, s = e.split("=")
+                    cat[word_str(n)] = word_str(s)
+            text = "".join(chr(int(w)) for w in words[i + 1:])
+
+            class Getter(CreateTableStatementGetter):
+                def __init__(self):
+                    super().__init__(None)
+                    self.asked = []
+
+                def get_sql(self, full_table_name):
+                    self.asked.append(full_table_name)
+                    return cat[full_table_name]              # KeyError for a table the catalogue does not know
+            try:
+                sts = SQLParser.parse_statements(text)
+            except Exception as e:  # noqa
+                return "PARSEERR " + err_name(e)
+            if len(sts) != 1:
+                return "PARSEERR ParseErr"
+
+            def so(x):
+                return "-" if x is None else ("e" if x == "" else cps(x))
+
+            def show_src(x):
+                return "%s:%s:%s" % (so(x.schema_name), so(x.table_name), so(x.column_name))
+
+            def show_srcs(l):
+                return "[" + ",".join(sorted(set(show_src(x) for x in l))) + "]"
+            g = Getter()
+            an = TableLineageAnalyzer(g)
+            out = io.StringIO()
+            try:
+                with contextlib.redirect_stdout(out):
+                    if isinstance(sts[0], cnode.ASTInsertSelectStatement):
+                        r = an.get_insert_table_lineage(sts[0])
+                        body = "OK I " + " ".join("%s=%s" % (show_src(t), show_srcs(ss)) for t, ss in r.all_columns())
+                    else:
+                        r = an.get_select_table_lineage(sts[0])
+                        body = "OK S " + " ".join("%d:%s=%s" % (c.column_idx, so(c.column_name), show_srcs(ss)) for c, ss in r.all_columns())
+            except RecursionError:
+                return "ERR Recursion"
+            except Exception as e:  # noqa
+                return "ERR " + err_name(e)
+            return body + " ; ASKED " + ",".join(so(k) for k in g.asked)
+        except Exception as e:  # noqa
+            return "BAD-REQUEST " + repr(e)
+    if cmd == "CACHE":
+        try:
+            import shutil
+            import tempfile
+            from metasequoia_sql.analyzer import CreateTableStatementGetter
+            i = words.index("|")
+            known = set()
+            for w in words[1:i]:
+                if w != "-":
+                    known |= {word_str(x) for x in w.split(",")}
+            asked = []
+
+            def tag(n):
+                return "n" + "_".join(str(ord(c)) for c in n)
+
+            class Getter(CreateTableStatementGetter):
+                def get_sql(self, full_table_name):
+                    asked.append(full_table_name)
+                    if full_table_name not in known:
+                        raise KeyError(full_table_name)
+                    return "CREATE TABLE zz (%s INT)" % tag(full_table_name)
+            d = tempfile.mkdtemp(prefix="verif_cache_")
+            try:
+                insts, out = [], []
+                for w in words[i + 1:]:
+                    parts = w.split(":")
+                    if parts[0] == "new":
+                        insts.append(Getter(d if parts[1] == "1" else None))
+                        out.append("-")
+                    elif parts[0] == "get":
+                        k = int(parts[1])
+                        if k >= len(insts):
+                            out.append("E:Crash1")
+                            continue
+                        try:
+                            ast = insts[k].get_statement(word_str(parts[2]))
+                            out.append("S:" + ast.columns[0].column_name)
+                        except FileNotFoundError:
+                            out.append("E:Crash7")
+                        except Exception as e:  # noqa
+                            out.append("E:" + err_name(e))
+                    elif parts[0] == "crash":
+                        # a save cut short: the provider was asked, the file exists with a prefix of the text, the instance is lost
+                        n = word_str(parts[2])
+                        if n in known:
+                            asked.append(n)
+                            with open(os.path.join(d, n + ".sql"), "w", encoding="UTF-8") as f:
+                                f.write(("CREATE TABLE zz (%s INT)" % tag(n))[:int(parts[3])])
+                        out.append("-")
+                    else:
+                        return "BAD-REQUEST op"
+                files = sorted(cps(f) for f in os.listdir(d))
+                return (" ".join(out) + " ; ASKED " + ",".join("e" if k == "" else cps(k) for k in asked) + " ; FILES " + ",".join(files)).strip()
+            finally:
+                shutil.rmtree(d, ignore_errors=True)
+        except Exception as e:  # noqa
+            return "BAD-REQUEST " + repr(e)
     if cmd == "CURSOR":
         try:
             return run_cursor(words[1:])
